@@ -265,7 +265,10 @@ theorem UI_cnFail (cfg : Cfg) (hf : cfg.fix = true ∧ cfg.fix2 = true ∧ cfg.f
       · split
         · split
           · exact UI_knCleanup _ ha
-          · exact (UI_cnStop _ _ ha).ev _
+          · split
+            · have hs := ((UI_cnStop _ .kn ha).ev .knStop).ev .knStart
+              exact ⟨hs.uaf, hs.c0, hs.c1, ⟨by simp, by simp⟩⟩
+            · exact (UI_cnStop _ _ ha).ev _
         · rename_i hfx; exact absurd hf.1 hfx
       · exact ha
     · exact ha
@@ -691,6 +694,7 @@ theorem UI_step (cfg : Cfg) (hf : cfg.fix = true ∧ cfg.fix2 = true ∧ cfg.fix
       exact UI_fireAll cfg hf _ _ (h.same ⟨rfl, rfl, rfl, rfl⟩)
   | knDelay tbl => exact ⟨h.uaf, h.c0, h.c1, h.kn⟩
   | knDelayAct tbl k cl => exact ⟨h.uaf, h.c0, h.c1, h.kn⟩
+  | knDelayRe tbl k => exact ⟨h.uaf, h.c0, h.c1, h.kn⟩
   | budget k => exact h.same ⟨rfl, rfl, rfl, rfl⟩
   | fault kind k => simp only [step]; split <;> exact h.same ⟨rfl, rfl, rfl, rfl⟩
 
